@@ -23,7 +23,7 @@ type schedEntry struct {
 	n     int
 	ewd   bool
 	fault bool
-	zend  bool // "Z": a (0, nil) read even when the data is exhausted (end of input is reported by a later Read)
+	zend  bool // "Z": the same as "0", a zero-length read (also after the last byte: the end of input is reported by a later Read)
 }
 
 func (r *schedReader) Read(p []byte) (int, error) {
@@ -39,8 +39,8 @@ func (r *schedReader) Read(p []byte) (int, error) {
 		if e != nil && e.fault {
 			return 0, errInjected
 		}
-		if e != nil && e.zend {
-			return 0, nil
+		if e != nil && (e.zend || e.n == 0) {
+			return 0, nil // a zero-length read even here: the end is reported by a later Read (Reader.v: SChunk 0 on empty data)
 		}
 		return 0, io.EOF
 	}
